@@ -129,9 +129,8 @@ func getScanBuffer(size int) []byte {
 		return make([]byte, size)
 	}
 	if v := scanBufferPools[shift-scanBufferMinShift].Get(); v != nil {
-		buf := v.([]byte)
-		verifScanBufferTaken(buf)
-		return buf[:size]
+		verifScanBufferTaken(v.([]byte))
+		return v.([]byte)[:size]
 	}
 	return make([]byte, size, 1<<shift)
 }
